@@ -34,13 +34,33 @@ _scratch = None
 
 
 def scratch():
-    """A private scratch directory outside /repo and /verif, removed at exit."""
+    """A private scratch directory outside /repo and /verif, removed at exit (workers share their parent's)."""
     global _scratch
+    if _scratch is None and os.environ.get("VERIF_SHARED_SCRATCH"):
+        _scratch = os.environ["VERIF_SHARED_SCRATCH"]
     if _scratch is None:
         base = os.environ.get("VERIF_SCRATCH_BASE") or tempfile.gettempdir()
         _scratch = tempfile.mkdtemp(prefix="strengths_verif_", dir=base)
         atexit.register(shutil.rmtree, _scratch, True)
     return _scratch
+
+
+class flock:
+    """Inter-process lock on a file in the shared scratch directory (build steps are done once)."""
+
+    def __init__(self, name):
+        self.path = os.path.join(scratch(), name + ".lock")
+
+    def __enter__(self):
+        import fcntl
+        self.fh = open(self.path, "w")
+        fcntl.flock(self.fh, fcntl.LOCK_EX)
+        return self
+
+    def __exit__(self, *a):
+        import fcntl
+        fcntl.flock(self.fh, fcntl.LOCK_UN)
+        self.fh.close()
 
 
 def file_hash(path):
@@ -167,23 +187,40 @@ class Recorder:
                 self.extra.setdefault(k, v)
 
     def parallel(self, worker, items, procs=None, timeout_s=None):
-        """Runs worker(sub_recorder, item) for every item in forked processes and merges the results.
-        A worker that dies or times out is a harness error (never a pass)."""
-        import multiprocessing as mp
+        """Runs worker(sub_recorder, item) for every item, each in a FRESH python process (z3 state does
+        not accumulate and is never forked), and merges the results. A worker that dies or times
+        out is a harness error (never a pass). worker must be a module-level function."""
+        import subprocess
+        from concurrent.futures import ThreadPoolExecutor
         procs = procs or min(len(items), int(os.environ.get("VERIF_PROCS", "0") or 0) or os.cpu_count() or 4)
-        if procs <= 1 or len(items) <= 1:
+        if os.environ.get("VERIF_INPROCESS") == "1" or not items:
             for it in items:
                 worker(self, it)
             return
-        ctx = mp.get_context("fork")
-        with ctx.Pool(procs, maxtasksperchild=1) as pool:
-            res = [(it, pool.apply_async(_run_worker, (worker, self.pid, self.tier, self.seed, it))) for it in items]
-            for it, r in res:
-                try:
-                    d = r.get(timeout=timeout_s)
+        sd = scratch()
+        env = dict(os.environ, VERIF_SHARED_SCRATCH=sd, VERIF_TIER=self.tier, VERIF_SEED=str(self.seed),
+                   PYTHONPATH=VERIF + os.pathsep + SRC + os.pathsep + os.environ.get("PYTHONPATH", ""))
+
+        def one(k_it):
+            k, it = k_it
+            out = os.path.join(sd, "w_%s_%d_%d.json" % (self.pid, os.getpid(), k))
+            cmd = [sys.executable, "-m", "vt.worker", worker.__module__, worker.__name__, self.pid, json.dumps(it), out]
+            try:
+                r = subprocess.run(cmd, cwd=VERIF, env=env, capture_output=True, text=True, timeout=timeout_s or 3000)
+            except subprocess.TimeoutExpired:
+                return it, None, "timeout"
+            if not os.path.exists(out):
+                return it, None, "exit %d: %s" % (r.returncode, (r.stderr or "")[-400:])
+            d = json.load(open(out))
+            os.unlink(out)
+            return it, d, None
+
+        with ThreadPoolExecutor(max_workers=procs) as ex:
+            for it, d, err in ex.map(one, list(enumerate(items))):
+                if d is None:
+                    self.error("worker for %r failed: %s" % (it, err))
+                else:
                     self.merge(d)
-                except Exception as e:  # noqa
-                    self.error("worker for %r failed: %s: %s" % (it, type(e).__name__, str(e)[:300]))
 
     # ---- finishing ---------------------------------------------------------------------------
     def finish(self):
@@ -272,6 +309,7 @@ def _run_worker(worker, pid, tier, seed, item):
         rec.error("HarnessError in %r: %s" % (item, e))
     except Exception as e:  # noqa
         rec.error("unexpected %s in %r: %s\n%s" % (type(e).__name__, item, e, traceback.format_exc()[-1200:]))
+    rec.extra.setdefault("item_times", []).append([round(time.time() - rec.t0, 1), str(item)[:160]])
     d = rec.export()
     for v in d["violations"]:
         v["replay"] = jsonable(v["replay"])
